@@ -415,6 +415,9 @@ class AhocorasickTokenizer(Tokenizer):
 
     def __post_init__(self):
         """Set up helpers to narrow down possible extractors."""
+        # Position of each extractor, to return filtered extractors in the
+        # same order as the unfiltered tokenizer would run them
+        self.extractor_order = {id(e): i for i, e in enumerate(self.extractors)}
         # Build a set of all extractors that don't list required strings
         self.unfiltered_extractors = set(
             e for e in self.extractors if not e.strings
@@ -434,7 +437,7 @@ class AhocorasickTokenizer(Tokenizer):
             for s in e.strings
         )
 
-    def get_extractors(self, text: str) -> Set[TokenExtractor]:
+    def get_extractors(self, text: str) -> List[TokenExtractor]:
         """Override get_extractors() to filter out extractors
         that can't possibly match."""
         unique_extractors = set(self.unfiltered_extractors)
@@ -446,7 +449,9 @@ class AhocorasickTokenizer(Tokenizer):
                 text.lower()
             ):
                 unique_extractors.update(extractors)
-        return unique_extractors
+        return sorted(
+            unique_extractors, key=lambda e: self.extractor_order[id(e)]
+        )
 
     @staticmethod
     def make_ahocorasick_filter(
